@@ -128,3 +128,85 @@ func genNestLocals(thorough bool) Gen {
 		rec(0)
 	}
 }
+
+// F-firstblock — scope records at the very start of a function: functions with 0-3 parameters
+// (with and without `...`) whose body *begins* with a minimal block or declaration (a block of a
+// single instruction ends at pc 0 or 1, where "not yet closed" and "closed at 0" are easily
+// confused, and the parameters' own records start there), followed by a local, a second block and
+// another local; debug.getlocal at every statement gap, and setlocal by name followed by getlocal.
+func genFirstBlock() Gen {
+	dbg := func(f string, args ...Expr) Expr { return Call(Dot(Name("debug"), f), args...) }
+	plocals := func() Stat {
+		return FuncS("plocals", Func(names("tag"), false,
+			Local1("i", Num(1)),
+			While(True(),
+				Local(names("n", "v"), dbg("getlocal", Num(2), Name("i"))),
+				If(Bin("==", Name("n"), Nil()), Break()),
+				If(Bin("~=", Method(Name("n"), "sub", Num(1), Num(1)), Str("(")), Emit(Str("L"), Name("tag"), Name("n"), Name("v"))),
+				Assign1(Name("i"), Bin("+", Name("i"), Num(1)))),
+			Emit(Str("Lend"), Name("tag"))))
+	}
+	setl := func() Stat {
+		return FuncS("setl", Func(names("name", "nv"), false,
+			Local(names("i", "k"), Num(1), Num(0)),
+			While(True(),
+				Local1("n", Paren(dbg("getlocal", Num(2), Name("i")))),
+				If(Bin("==", Name("n"), Nil()), Break()),
+				If(Bin("==", Name("n"), Name("name")), Assign1(Name("k"), Bin("+", Name("k"), Num(1))), Emit(Str("setlocal"), dbg("setlocal", Num(2), Name("i"), Bin("..", Name("nv"), Name("k"))))),
+				Assign1(Name("i"), Bin("+", Name("i"), Num(1))))))
+	}
+	firsts := []struct {
+		name string
+		mk   func(p Expr) Stat
+	}{
+		{"do-local", func(p Expr) Stat { return Do(Local(names("a"))) }},
+		{"do-empty", func(p Expr) Stat { return Do() }},
+		{"do-local-init", func(p Expr) Stat { return Do(Local1("a", p)) }},
+		{"do-two-locals", func(p Expr) Stat { return Do(Local(names("a", "b"))) }},
+		{"do-do-local", func(p Expr) Stat { return Do(Do(Local(names("a")))) }},
+		{"do-shadow-param", func(p Expr) Stat { return Do(Local(names("p"))) }},
+		{"if-empty", func(p Expr) Stat { return If(Name("nothing")) }},
+		{"if-false-local", func(p Expr) Stat { return If(False(), Local(names("a"))) }},
+		{"while-false", func(p Expr) Stat { return While(False()) }},
+		{"numfor-empty", func(p Expr) Stat { return NumFor("i", Num(1), Num(0), nil) }},
+		{"genfor-empty", func(p Expr) Stat { return GenFor(names("k"), []Expr{Name("next"), TableE()}) }},
+		{"repeat-local", func(p Expr) Stat { return Repeat(True(), Local(names("a"))) }},
+		{"local-declared-only", func(p Expr) Stat { return Local(names("a")) }},
+		{"local-function", func(p Expr) Stat { return LocalFunc("a", Func(nil, false)) }},
+	}
+	return func(yield func(*Prog)) {
+		for np := 0; np <= 3; np++ {
+			for _, va := range []bool{false, true} {
+				for _, fb := range firsts {
+					np, va, fb := np, va, fb
+					params := names("p", "q", "r")[:np]
+					mkBody := func() *Block {
+						var p Expr = Num(1)
+						if np > 0 {
+							p = Name("p")
+						}
+						return Blk(fb.mk(p), Local1("z", Num(3)), Do(Local1("b", Name("z"))), Local1("y", Name("z")))
+					}
+					ngaps := countGaps(mkBody())
+					for g := 0; g < ngaps; g++ {
+						g := g
+						for _, mode := range []string{"get", "set"} {
+							mode := mode
+							yield(&Prog{Family: "F-firstblock", Shape: fmt.Sprintf("params=%d/vararg=%v/%s/gap%d/%s", np, va, fb.name, g, mode), Mk: func() *Block {
+								body := mkBody()
+								insertAt(body, g, func() Stat {
+									if mode == "get" {
+										return CallS(Name("plocals"), Num(float64(g)))
+									}
+									return Do(CallS(Name("setl"), Str("p"), Str("SET-p")), CallS(Name("setl"), Str("q"), Str("SET-q")), CallS(Name("setl"), Str("a"), Str("SET-a")), CallS(Name("setl"), Str("z"), Str("SET-z")), CallS(Name("plocals"), Num(float64(g))))
+								})
+								body.Stats = append(body.Stats, CallS(Name("plocals"), Str("end")), Return(Name("z"), Name("y")))
+								return Blk(plocals(), setl(), LocalFunc("test", Func(params, va, body.Stats...)), Emit(Str("result"), CallN("test", Str("P"), Str("Q"), Str("R"), Str("V1"))))
+							}})
+						}
+					}
+				}
+			}
+		}
+	}
+}
